@@ -315,7 +315,8 @@ func (l *Linter) lintSwitchStatement(stmt *ast.SwitchStatement, ctx *context.Con
 			case *ast.BreakStatement, *ast.FallthroughStatement:
 				break // parser already made sure break/fallthrough is at the end.
 			default:
-				l.lint(s, ctx)
+				// statements in a case clause may have ignoring comments as well
+				l.lintStatement(s, ctx)
 			}
 		}
 	}
